@@ -533,6 +533,20 @@ class Exec:
                 self.ev(e["a"], out, stmt=True)
                 return self.ev(e["b"], out)
             a = self.ev(e["a"], out)
+            if op in ("&&", "||"):
+                # short-circuit: effects of the right operand happen only when it is evaluated
+                sub = []
+                b = self.ev(e["b"], sub)
+                if sub:
+                    guard = a if op == "&&" else sym.unop("!", a)
+                    dec = self.hooks.decide(self, guard)
+                    if dec is True:
+                        out.extend(sub)
+                    elif dec is None:
+                        out.append({"e": "if", "cond": guard, "then": sub, "else": [], "l": e["l"],
+                                    "then_exits": False, "else_exits": False, "then_status": "fall",
+                                    "else_status": "fall", "shortcircuit": True})
+                return sym.binop(op, a, b)
             b = self.ev(e["b"], out)
             t = e.get("t", "")
             if is_float_type(t) or (op in ("<", ">", "<=", ">=", "==", "!=") and
